@@ -2,12 +2,12 @@ SPECIFICATION Spec
 CONSTANTS
   Vals <- V3
   Wts <- W3
-  Lens = {2, 3}
+  Lens = {3}
   MaxSteps = 2
   Full = FALSE
   SeqMeans <- SMeans
   SeqScales <- SScales
-  SeqSums <- TSSums
+  SeqSums <- SSums
   MeanTargets <- TMeanT
   VarTargets <- TVarT
   StdTargets <- TStdT
@@ -31,7 +31,5 @@ INVARIANT MeanThenVariance
 INVARIANT MeanThenSpread
 INVARIANT SurgeryThenMean
 INVARIANT DefFacts
-INVARIANT MedianFacts
 INVARIANT CurIsLight
-INVARIANT TrimFacts
 INVARIANT Emit
